@@ -756,7 +756,7 @@ func zvPartB(m *zmon, rng *core.Rand, pools map[string][]*zpol) {
 	for _, k := range zvPoolOrder {
 		allPool = append(allPool, pools[k]...)
 	}
-	n := core.N(3000, 60000)
+	n := core.N(3000, 150000)
 	workers := 1
 	if core.Thorough() {
 		workers = 8
